@@ -444,12 +444,24 @@ impl<'a> GeneratorState<'a> {
                         .syntax_error("Sizeof only works on variables and simple types", pos))
                 }
             }
-            Expr::Identifier(var, _) => {
+            Expr::Identifier(var, sub) => {
                 if var == "X" || var == "Y" {
                     return Ok(ExprType::Immediate(1));
                 }
                 self.check_has_value(var, pos)?;
                 let v = self.compiler_state.get_variable(var);
+                if !matches!(**sub, Expr::Nothing) {
+                    // The size of an element, not of the whole array
+                    return match v.var_type {
+                        VariableType::CharPtr => Ok(ExprType::Immediate(1)),
+                        VariableType::ShortPtr | VariableType::CharPtrPtr => {
+                            Ok(ExprType::Immediate(2))
+                        }
+                        _ => Err(self
+                            .compiler_state
+                            .syntax_error("Sizeof only works on variables and simple types", pos)),
+                    };
+                }
                 match v.var_type {
                     VariableType::CharPtr => {
                         if v.var_const {
